@@ -75,7 +75,9 @@ def main():
         for f in ("patch.diff", "demo.py"):
             if os.path.abspath(os.path.join(sd, f)) != os.path.abspath(os.path.join(dst, f)):
                 shutil.copy(os.path.join(sd, f), os.path.join(dst, f))
-        meta["confirmed"] = {k: out.get(k) for k in ("patch_applies", "tests", "tests_green", "demo_changed_exit", "demo_unchanged_exit")}
+        prev = meta.get("confirmed") or {}
+        meta["confirmed"] = {k: (out.get(k) if out.get(k) is not None else prev.get(k))
+                             for k in ("patch_applies", "tests", "tests_green", "demo_changed_exit", "demo_unchanged_exit")}
         meta["ran"] = ["repo test-suite on a scratch copy with the patch", "demo.py with and without the patch",
                        "./run.py check <prop> --tier %s with VERIF_REPO=<scratch copy>" % a.tier]
         meta["checks"] = out.get("checks")
